@@ -137,11 +137,22 @@ def x_two_runs(ctx, case):
     return True
 
 
+ORDER = [("test_id", None), ("test_status", None), ("test_tags", None), ("runnable", True), ("file_name", None),
+         ("file_bytes", None), ("eof", False), ("mime_type", None), ("route_code", None), ("timestamp", None)]
+POSITIONAL = [False]
+
+
 def _feed(ctx, consumer, events, who):
-    """status() for each event; an exception on a well-formed event is the consumer's fault, not the harness'."""
+    """status() for each event; an exception on a well-formed event is the consumer's fault, not the harness'.
+    (POSITIONAL: every argument by position, in the order StreamResult.status documents - what replaying a
+    recorded event tuple with ``result.status(*event)`` does.)"""
     for e in events:
         try:
-            consumer.status(**ev_kwargs(e))
+            if POSITIONAL[0]:
+                kw = ev_kwargs(e)
+                consumer.status(*[kw.get(k, d) for k, d in ORDER])
+            else:
+                consumer.status(**ev_kwargs(e))
         except Exception as exc:  # noqa
             ctx.check(False, "consumer.accepts-every-event",
                       lambda: {"consumer": who, "event": e, "error": repr(exc), "events": events})
@@ -152,6 +163,7 @@ def _feed(ctx, consumer, events, who):
 def x_seq(ctx, case):
     import testtools
     events = case["events"]
+    POSITIONAL[0] = bool(case.get("positional"))
     detail = lambda: {"events": events}  # noqa: E731
     fin, rest = model(events)
     # ---- StreamToDict ---------------------------------------------------------------------
@@ -326,4 +338,5 @@ def run(ctx):
             ctx.execute("two_runs", {"events": [random_event(rng) for _ in range(rng.randint(0, 12))],
                                      "events2": [random_event(rng) for _ in range(rng.randint(0, 12))]})
         else:
-            ctx.execute("seq", {"events": [random_event(rng) for _ in range(rng.randint(0, 30))]})
+            ctx.execute("seq", {"events": [random_event(rng) for _ in range(rng.randint(0, 30))],
+                                "positional": rng.random() < 0.3})
